@@ -190,6 +190,89 @@ class BlockStream(Stream):
                 "print([s._obj(d).solve(**{d['param']: v}).S for v in d['vals']])\n")
 
 
+class Block2Stream(Stream):
+    """every bare library block with SEVERAL parameters assigned at once: scalar / length-1 / length-n values (and a
+    second, different length > 1, which must be rejected); the model does the broadcast, the scalar solves of /repo are
+    the oracle table"""
+    name = "blocks_mixed"
+    imports = "Field Matrix Base Kernel Network Solve Params Sweep Corr"
+    case_type = "blk2_case"
+    verdict_fn = "blk2_verdict"
+    shard_size = 12
+
+    def generate(self, rng, tier):
+        out = []
+        reps = 1 if tier == "quick" else 4
+        for name, (_, params) in BLOCKS.items():
+            if name.startswith("FPRGaussian") and tier == "quick":
+                continue
+            for _ in range(reps):
+                n = 2 if name.startswith("FPRGaussian") else rng.randint(2, 4)
+                names = list(params) + ["zz%d" % i for i in range(rng.randint(1, 2))]   # zz*: names the block ignores
+                rng.shuffle(names)
+                kw = []
+                for nm in names:
+                    r = rng.random()
+                    kind = "scalar" if r < 0.3 else "len1" if r < 0.5 else "array"
+                    m = 1 if kind != "array" else n
+                    kw.append([nm, [round(1.0 + rng.randint(0, 80) / 64.0, 6) for _ in range(m)], kind])
+                if not any(k == "array" for _, _, k in kw):
+                    kw[0] = [kw[0][0], [round(1.0 + rng.randint(0, 80) / 64.0, 6) for _ in range(n)], "array"]
+                if rng.random() < 0.15:
+                    kw.append(["bad", [1.0] * (n + 1), "array"])
+                out.append({"block": name, "kw": kw, "in_solver": rng.random() < 0.3})
+        return out
+
+    _obj = BlockStream._obj
+
+    def run(self, d):
+        def mat(mod, k):
+            names = sorted(p.name for p in mod.pin_dic)
+            return cmat(netlib.observe_expo(mod, names, k), cf)
+        ids = {nm: i for i, (nm, _, _) in enumerate(d["kw"])}
+        lens = {len(vs) for _, vs, _ in d["kw"]} - {1}
+        oracle = []
+        if len(lens) == 1:          # harness-side enumeration of the points (the model recomputes them and looks them up)
+            n = lens.pop()
+            for k in range(n):
+                pt = [(nm, vs[0] if len(vs) == 1 else vs[k]) for nm, vs, _ in d["kw"]]
+                try:
+                    mod = self._obj(d).solve(**dict(pt))
+                    o = "Obs " + mat(mod, 0)
+                except Exception:
+                    o = "Raised"
+                oracle.append("(%s, %s)" % (paramlib.dict_lit([(ids[nm], v) for nm, v in pt]), o))
+        try:
+            kwargs = {nm: (vs[0] if kind == "scalar" else np.array(vs)) for nm, vs, kind in d["kw"]}
+            mod = self._obj(d).solve(**kwargs)
+            sw = "Obs " + clist(mat(mod, k) for k in range(np.asarray(mod.S).shape[0]))
+        except Exception:
+            sw = "Raised"
+        return "{| b2_kw := %s; b2_oracle := %s; b2_sweep := %s |}" % (
+            sdict_lit([(ids[nm], vs) for nm, vs, _ in d["kw"]]), clist(oracle), sw)
+
+    def nontrivial(self, d):
+        return len({k for _, _, k in d["kw"]}) > 1
+
+    def classify(self, d):
+        return d["block"] + ("/bad" if any(nm == "bad" for nm, _, _ in d["kw"]) else "")
+
+    def shrink(self, d):
+        out = []
+        for i in range(len(d["kw"])):
+            if len(d["kw"]) > 1:
+                e = copy.deepcopy(d)
+                del e["kw"][i]
+                out.append(e)
+        return out
+
+    def py_repro(self, d):
+        return ("import sys; sys.path.insert(0,'/verif/harness'); import c04, numpy as np\n"
+                f"d={d!r}\n"
+                "s=c04.Block2Stream(); kw={nm: (vs[0] if k=='scalar' else np.array(vs)) for nm, vs, k in d['kw']}\n"
+                "print(s._obj(d).solve(**kw).S)\n")
+
+
 TRUSTED = [
     "Coq 8.16.1 kernel + vm_compute",
     "hand-written models Sweep.v / Params.v tied to /repo by this correspondence run (sampled)",
@@ -197,12 +280,14 @@ TRUSTED = [
 ]
 
 if __name__ == "__main__":
-    main("C04", [SweepStream(), BlockStream()],
+    main("C04", [SweepStream(), BlockStream(), Block2Stream()],
          level_text="props/C04.v proves the normalisation logic for any scalar solve function: index k is the scalar solve at "
                     "the k-th value of every parameter, scalars and length-1 arrays are broadcast, two different lengths > 1 are "
                     "rejected. The tie (i) sweeps solver hierarchies with probe/spy leaves over random mixes of scalar / length-1 / "
                     "length-n values (and malformed mixes) and compares every sweep index with the model; (ii) sweeps EVERY bare "
                     "library block (and blocks inside a solver, mode-expanded blocks) over each of its parameters and requires the "
-                    "sweep to equal, bit for bit, the stack of the scalar solves.",
+                    "sweep to equal, bit for bit, the stack of the scalar solves; (iii) assigns SEVERAL parameters of every bare block at "
+                    "once (its own and ones it ignores) as scalar / length-1 / length-n mixes, incl. inconsistent lengths: the model "
+                    "broadcasts and looks each point up in the table of /repo's scalar solves.",
          trusted_base=TRUSTED,
          assumptions=["the per-block half is oracle-parametrised: the scalar solve of the implementation is the reference"])
